@@ -309,6 +309,8 @@ class ExcInfo:
 
 # analyse the program as python -O runs it (assert statements removed)
 ASSERTS_REMOVED = False
+# analyse the program as python -bb runs it (str() of bytes raises)
+BYTES_WARNINGS = False
 
 _OWNED_ROOTS = ('param', 'field', 'attr', 'elem', 'index', 'loopvar',
                 'loopattr', 'tableget', 'global', 'obj', 'havoc', 'unknown',
@@ -400,6 +402,7 @@ _EXC_PARENT = {
     'IOError': 'Exception', 'EnvironmentError': 'Exception',
     'KeyboardInterrupt': 'BaseException', 'SystemExit': 'BaseException',
     'GeneratorExit': 'BaseException', 'BufferError': 'Exception',
+    'BytesWarning': 'Warning',
     'EOFError': 'Exception', 'ImportError': 'Exception',
 }
 _EXC_ALIAS = {'IOError': 'OSError', 'EnvironmentError': 'OSError'}
@@ -594,6 +597,11 @@ class Interp:
                     if isinstance(tgt, FuncInfo) and not isinstance(
                             d, ast.Call) and mentions(tgt.node):
                         todo.append(('deco', tgt, st))
+                    elif isinstance(tgt, FuncInfo) and isinstance(
+                            d, ast.Call) and mentions(tgt.node):
+                        # @factory(args): the function it returns does the
+                        # registering
+                        todo.append(('decofactory', (tgt, d), st))
             elif isinstance(st, (ast.Assign, ast.AugAssign, ast.Expr,
                                  ast.Delete)) and mentions(st):
                 tg = st.targets if isinstance(st, (ast.Assign, ast.Delete)) \
@@ -610,8 +618,20 @@ class Interp:
                     isinstance(st.value.func, ast.Attribute) and
                     isinstance(st.value.func.value, ast.Name) and
                     st.value.func.value.id == name)
+                if not writes and isinstance(st, ast.Expr) and isinstance(
+                        st.value, ast.Call) and any(
+                            isinstance(n_, ast.Name) and n_.id == name
+                            for a_ in list(st.value.args) + [
+                                k_.value for k_ in st.value.keywords]
+                            for n_ in ast.walk(a_)):
+                    writes = True  # handed to a function at import time
                 if writes:
                     todo.append(('stmt', st, None))
+            elif isinstance(st, (ast.For, ast.While, ast.If, ast.With,
+                                 ast.Try)) and mentions(st):
+                # a compound statement at module level that touches the
+                # container: run it (or stop undecided if it cannot be run)
+                todo.append(('stmt', st, None))
         if not todo:
             return
         saved = (self.cur_module, self.cur_func, self.stack, self.pending)
@@ -625,6 +645,21 @@ class Interp:
                 fr = Frame(self, None, mi, None, st_.env)
                 if kind == 'stmt':
                     outs = self.exec_block([a], st_, fr)
+                elif kind == 'decofactory':
+                    fac, dcall = a
+                    scope = self.prog.classes.get(
+                        mi.name + '.' + b.name) if isinstance(
+                            b, ast.ClassDef) else self.prog.functions.get(
+                                mi.name + '.' + b.name)
+                    if scope is None or any(
+                            isinstance(x, ast.Starred) for x in dcall.args):
+                        raise Unsupported('decorated definition %s' % b.name)
+                    dargs = [self.eval(x, st_, fr) for x in dcall.args]
+                    dkw = {k.arg: self.eval(k.value, st_, fr)
+                           for k in dcall.keywords if k.arg}
+                    inner = self.call_function(fac, dargs, dkw, st_, dcall)
+                    self.call_value(inner, [scope], {}, st_, dcall)
+                    outs = []
                 else:
                     scope = self.prog.classes.get(
                         mi.name + '.' + b.name) if isinstance(
@@ -637,6 +672,16 @@ class Interp:
                     raise Unsupported(
                         'module-level initialisation of %s.%s may raise' %
                         (mi.name, name))
+                finals = [o for o in outs if o.kind == 'normal']
+                if kind == 'stmt' and len(finals) == 1 and \
+                        finals[0].state.store is not self.static_store:
+                    # a compound statement forks and joins states: what it
+                    # left in the heap is the heap from here on
+                    self.static_store.update(finals[0].state.store)
+                elif kind == 'stmt' and len(finals) > 1:
+                    raise Unsupported(
+                        'module-level initialisation of %s.%s ends in %d '
+                        'states' % (mi.name, name, len(finals)))
         finally:
             self.cur_module, self.cur_func, self.stack, self.pending = saved
             del self.effects[e0:]
@@ -658,6 +703,36 @@ class Interp:
             self.note('name %s bound %d times in %s: last binding used' %
                       (b.name, len(bl), scope.qualname))
         value = b.value
+        if isinstance(value, tuple) and value and value[0] == 'forlast':
+            st_ = value[1]
+            seq = self.models.static_sequence(
+                self, self.eval_static(st_.iter, scope, mi),
+                State({}, self.static_store, Knowledge()))
+            if not seq:
+                raise Unsupported('loop variable %s of a scope-level loop '
+                                  'over a run-time or empty iterable' %
+                                  b.name)
+            last = seq[-1]
+
+            def pick(tgt, v):
+                if isinstance(tgt, ast.Name):
+                    return v if tgt.id == b.name else ABSENT
+                if isinstance(tgt, (ast.Tuple, ast.List)):
+                    vs = self.models.static_sequence(
+                        self, v, State({}, self.static_store, Knowledge()))
+                    if vs is None or len(vs) != len(tgt.elts):
+                        raise Unsupported('loop target of a scope-level '
+                                          'loop: ' + b.name)
+                    for t_, v_ in zip(tgt.elts, vs):
+                        r_ = pick(t_, v_)
+                        if r_ is not ABSENT:
+                            return r_
+                return ABSENT
+            got = pick(st_.target, last)
+            if got is ABSENT:
+                raise Unsupported('loop variable %s not found in its target'
+                                  % b.name)
+            return got
         if isinstance(value, tuple) and value and value[0] == 'unpack':
             whole = self.eval_static(value[1], scope, mi)
             tgt = b.node.targets[0]
@@ -1550,7 +1625,30 @@ class Interp:
         return T.truthy(v)
 
     def st_While(self, st, state, frame):
-        return self.run_loop(st, state, frame, None)
+        return self.run_loop(self._loop_with_leading_exit(st), state, frame,
+                             None)
+
+    def _loop_with_leading_exit(self, st):
+        """`while True: if C: break; rest`  is  `while not C: rest`: the
+        same loop with its exit test spelled in the body."""
+        cache = self.__dict__.setdefault('_leading_exit', {})
+        if id(st) in cache:
+            return cache[id(st)]
+        out = st
+        t = st.test
+        always = isinstance(t, ast.Constant) and t.value is True or \
+            isinstance(t, ast.Constant) and t.value == 1
+        if always and not st.orelse and len(st.body) > 1 and \
+                isinstance(st.body[0], ast.If) and \
+                not st.body[0].orelse and len(st.body[0].body) == 1 and \
+                isinstance(st.body[0].body[0], ast.Break):
+            neg = ast.UnaryOp(op=ast.Not(), operand=st.body[0].test)
+            out = ast.While(test=neg, body=st.body[1:], orelse=[])
+            ast.copy_location(neg, st.body[0].test)
+            ast.copy_location(out, st)
+            ast.fix_missing_locations(out)
+        cache[id(st)] = out
+        return out
 
     def st_For(self, st, state, frame):
         it = self.eval(st.iter, state, frame)
@@ -1829,6 +1927,12 @@ class Interp:
         del self.notes[notes0:]
         del self.rec_calls[rec0:]
         del self.handled[hand0:]
+        # a generator that yields inside the loop: after any number of
+        # iterations it has produced elements the analysis does not list
+        ylen0 = len(state.env.get('$yields', ()))
+        if any(len(o_.state.env.get('$yields', ())) > ylen0
+               for o_ in pinfo['all']):
+            state.env['$yields_more'] = True
         # monotone integer variables: the probe pass showed increments >= 0
         mono = pinfo['nonneg_incs']
         # pass 2: havoc with inferred facts, run once for real
@@ -2134,12 +2238,85 @@ class Interp:
             r = self._with_contextmanager(st, state, frame)
             if r is not None:
                 return r
-        for item in st.items:
-            v = self.eval(item.context_expr, state, frame)
-            if item.optional_vars is not None:
-                self.assign(item.optional_vars, Sym('enter', _as_term(v)),
-                            state, frame)
+        if len(st.items) > 1:
+            # with a, b: body  ==  with a: with b: body
+            inner = ast.With(items=st.items[1:], body=st.body)
+            outer = ast.With(items=st.items[:1], body=[inner])
+            ast.copy_location(inner, st)
+            ast.copy_location(outer, st)
+            return self.st_With(outer, state, frame)
+        item = st.items[0]
+        v = self.eval(item.context_expr, state, frame)
+        if isinstance(v, Ref):
+            ob = self.obj(state, v)
+            if isinstance(ob, InstObj) and self.prog.find_method(
+                    ob.cls, '__exit__') is not None:
+                return self._with_object(st, v, ob.cls, state, frame)
+        if item.optional_vars is not None:
+            self.assign(item.optional_vars, Sym('enter', _as_term(v)),
+                        state, frame)
         return self.exec_block(st.body, state, frame)
+
+    def _with_object(self, st, ref, cls, state, frame):
+        """`with obj:` where obj is an instance of a class of the package:
+        __enter__ runs, the body runs, and __exit__ sees how the body ended
+        - an exception it raises replaces the one in flight, a true result
+        swallows it."""
+        item = st.items[0]
+        enter = self.prog.find_method(cls, '__enter__')
+        exit_ = self.prog.find_method(cls, '__exit__')
+        entered = ref
+        if enter is not None:
+            entered = self.call_function(enter, [ref], {}, state, st)
+        pre = self.flush_pending()
+        if item.optional_vars is not None:
+            self.assign(item.optional_vars, entered, state, frame)
+        body_outs = self.exec_block(st.body, state, frame)
+        results = list(pre)
+        depth = len(state.kn.atoms)
+        normals = []
+        for o in body_outs:
+            s = o.state
+            if o.kind == 'raise':
+                exc_v = Sym('caught', o.exc.type, next(self.fresh))
+                argv = [ref, o.exc.type, exc_v, Sym('traceback')]
+            else:
+                argv = [ref, None, None, None]
+            caller_env = s.env
+            frame.handling.append(o.exc) if o.kind == 'raise' else None
+            try:
+                xouts = self.call_outcomes(exit_, argv, {}, s, st)
+            finally:
+                if o.kind == 'raise':
+                    frame.handling.pop()
+            for xo in xouts:
+                xo.state.env = dict(caller_env)
+                if xo.kind == 'raise':
+                    results.append(xo)
+                    continue
+                if o.kind != 'raise':
+                    keep = Outcome(o.kind, xo.state, o.value, o.exc)
+                    (normals if o.kind == 'normal' else results).append(keep)
+                    continue
+                sw = self.truth(xo.value, xo.state, st) \
+                    if xo.value is not None else False
+                d = sw if isinstance(sw, bool) else self.decide(sw, xo.state)
+                if d is True:
+                    normals.append(Outcome('normal', xo.state))
+                elif d is False:
+                    results.append(Outcome('raise', xo.state, exc=o.exc))
+                else:
+                    s1, s2 = xo.state.fork(), xo.state.fork()
+                    if s1.kn.assume(sw):
+                        normals.append(Outcome('normal', s1))
+                    if s2.kn.assume(T.not_(sw)):
+                        results.append(Outcome('raise', s2, exc=o.exc))
+        results.extend(self.flush_pending())
+        if normals:
+            j = normals[0] if len(normals) == 1 else \
+                self.join_outcomes(normals, depth)
+            results.append(Outcome('normal', j.state))
+        return results
 
     def _with_contextmanager(self, st, state, frame):
         """`with f(...):` where f is a generator function decorated with
@@ -2558,6 +2735,10 @@ class Interp:
                     v.conversion == -1
                 if not binary:
                     self.models.int_to_text(self, pv, state, v, 'f-string')
+                if v.conversion in (114, 97):
+                    self.models.repr_of_caught(self, pv, v)
+                elif v.conversion == -1 or v.conversion == 115:
+                    self.models.bytes_to_text(self, pv, state, v)
                 parts.append(_as_term(pv))
         if all(isinstance(p, str) for p in parts):
             return ''.join(parts)
@@ -3035,8 +3216,14 @@ class Interp:
             g = callee.args[0]
             depth = len(state.kn.atoms)
             s1, s2 = state.fork(), state.fork()
-            s1.kn.assume(g)
-            s2.kn.assume(T.not_(g))
+            ok1 = s1.kn.assume(g)
+            ok2 = s2.kn.assume(T.not_(g))
+            if ok1 and not ok2:
+                return self.call_value(callee.args[1], args, kwargs, state,
+                                       node)
+            if ok2 and not ok1:
+                return self.call_value(callee.args[2], args, kwargs, state,
+                                       node)
             v1 = self.call_value(callee.args[1], list(args), dict(kwargs),
                                  s1, node)
             v2 = self.call_value(callee.args[2], list(args), dict(kwargs),
